@@ -23,7 +23,7 @@ TIER = {
                      gen=dict(MinSmall=3, MaxSmall=5, Seeds="{1, 2, 3, 4}", MedSizes="{12, 24, 40, 60}", Lite="FALSE"),
                      stride=dict(csvc=1, nusvc=1, oneclass=1, esvr=1, nusvr=2, f32=1)),
 }
-FAMS = '{"csvc", "nusvc", "oneclass", "esvr", "nusvr", "f32", "offset", "poly1"}'
+FAMS = '{"csvc", "nusvc", "oneclass", "esvr", "nusvr", "f32", "offset", "poly1", "f32nl", "ocfrac"}'
 
 
 def design_models(ctx):
